@@ -869,3 +869,71 @@ def run_listener_history(nlisteners, ops):
         return out, [getattr(e, 'serial', None) for e in pool.event_buffer]
     finally:
         events.clear()
+
+
+# ------------------------------------------------------------------ ticks raised by the real main loop
+
+def run_loop_ticks(readings):
+    """The real Supervisor.runforever, one pass per reading: poll() of pass k sets
+    time.time() to readings[k]; tick() later in the same pass reads it.  Returns
+    per pass the (class name, when, payload) of the TickEvents raised."""
+    log = []
+    opts = SupOptions(log)
+    sup = supervisord.Supervisor(opts)
+    out = [[] for _ in readings]
+    state = {'k': -1}
+    saved = list(events.callbacks)
+    events.subscribe(events.TickEvent, lambda e: out[state['k']].append((type(e).__name__, e.when, e.payload())))
+    try:
+        with patched_time(readings[0] if readings else 0.0, modules=(supervisord,)) as fake:
+            def mk(k):
+                def chunk():
+                    state['k'] = k
+                    fake.now = readings[k]
+                return chunk
+            opts.poller = ScriptPoller([mk(k) for k in range(len(readings))])
+            try:
+                sup.runforever()
+            except ScriptEnd:
+                pass
+    finally:
+        events.callbacks[:] = saved
+    return out
+
+
+# ------------------------------------------------------------------ PROCESS_LOG through the real output dispatcher
+
+def run_log_events(reads, channel='stdout', enabled=True, pname='worker', gname='grp', pid=3131):
+    """A real POutputDispatcher without capture; returns the PROCESS_LOG events
+    raised per read as [(class name, payload text, data bytes)]."""
+    from supervisor import loggers
+    saved = list(events.callbacks)
+    try:
+        opts = AnsweringOptions()
+        opts.getLogger = loggers.getLogger
+        opts.loglevel = loggers.LevelsByName.INFO
+        opts.strip_ansi = False
+        cfg = FakePConfig(opts, pname)
+        for ch in ('stdout', 'stderr'):
+            setattr(cfg, ch + '_logfile', None)
+            setattr(cfg, ch + '_logfile_maxbytes', 0)
+            setattr(cfg, ch + '_logfile_backups', 0)
+            setattr(cfg, ch + '_syslog', False)
+            setattr(cfg, ch + '_events_enabled', enabled and ch == channel)
+            setattr(cfg, ch + '_capture_maxbytes', 0)
+        proc = cfg.make_process(FakeGroup(gname) if gname is not None else None)
+        proc.pid = pid
+        etype = events.ProcessCommunicationStdoutEvent if channel == 'stdout' else events.ProcessCommunicationStderrEvent
+        disp = dispatchers.POutputDispatcher(proc, etype, 9)
+        got = []
+        events.subscribe(events.Event, got.append)
+        out = []
+        for r in reads:
+            opts.pending[9] = r
+            n = len(got)
+            disp.handle_read_event()
+            disp.closed = False
+            out.append([(type(e).__name__, e.payload(), e.data) for e in got[n:]])
+        return out
+    finally:
+        events.callbacks[:] = saved
